@@ -445,6 +445,7 @@ fn generate_state(
                 let location = self.match_loc().0;
                 self.reset_match();
                 self.0.__state = 0;
+                self.0.__initial_state = 0;
                 return Some(Err(::lexgen_util::LexerError {
                     location,
                     kind: ::lexgen_util::LexerErrorKind::InvalidToken,
